@@ -45,9 +45,12 @@ type batch struct {
 type ctx struct {
 	f   lib.Flags
 	res *lib.Result
-	// variant of the verifiers the harness is looking at (model Cfg): "<trustCache><earlyValue><zeroRoot>"
+	// variant of the verifiers the harness is looking at (model Cfg):
+	// "<trustCache><earlyValue><zeroRoot><walkCollapsed>"
 	cfg2 string // trie2.VerifyProof
 	cfgL string // trie.VerifyProof (only zeroRoot matters)
+	// number of calls made although they are predicted not to return
+	hangsRun int32
 }
 
 func (c *ctx) modelLine(verifier, root, key string, p Proof, hash string) string {
@@ -71,6 +74,7 @@ type verifyReplay struct {
 	Tamper   string    `json:"tamper"`
 	Node     int       `json:"tampered_node"`
 	Honest   bool      `json:"honest"`
+	KeyPlus  bool      `json:"key_plus_2_251,omitempty"`
 	Trie     *TrieSpec `json:"trie,omitempty"`
 }
 
@@ -86,8 +90,16 @@ func (c *ctx) judge(ch *check, model string) {
 			res.Mismatch(lib.Mismatch{Sig: ch.sig, Input: ch.replay(), Model: model, Impl: ch.impl})
 		}
 	}
-	if strings.HasPrefix(model, "bad-op") || model == "err:fuel" {
-		res.Mismatch(lib.Mismatch{Sig: "driver-" + model + ":" + ch.sig, Input: ch.replay(), Model: model, Impl: ch.impl})
+	if strings.HasPrefix(model, "bad-op") {
+		res.Fatalf("the driver answers bad-op to a %s request: %.200s", ch.sig, ch.line)
+	}
+	if model == "err:fuel" && ch.impl != "hang" {
+		// the model's iteration bound stands for "does not return": only legitimate next to a real hang
+		res.Mismatch(lib.Mismatch{Sig: "model-out-of-fuel:" + ch.sig, Input: ch.replay(), Model: model, Impl: ch.impl})
+	}
+	if !ch.honest && (ch.impl == "panic" || ch.impl == "hang") {
+		res.Violate(lib.Violation{Sig: ch.sig + ":" + ch.impl,
+			What: fmt.Sprintf("%s: VerifyProof %ss on this node set / key", ch.sig, ch.impl), Replay: ch.replay()})
 	}
 	if ch.truth == "" {
 		return
@@ -111,9 +123,6 @@ func (c *ctx) judge(ch *check, model string) {
 	// altered proof / key / root: it may fail, it may still establish the true value, it must
 	// never establish anything else
 	switch {
-	case ch.impl == "panic" || ch.impl == "hang":
-		res.Violate(lib.Violation{Sig: ch.sig + ":" + ch.impl,
-			What: fmt.Sprintf("%s: VerifyProof %ss on an altered proof", ch.sig, ch.impl), Replay: ch.replay()})
 	case strings.HasPrefix(ch.impl, "ok ") && ch.impl != want:
 		res.Violate(lib.Violation{Sig: ch.sig + ":accepted",
 			What:   fmt.Sprintf("%s: altered proof verifies to %q, the trie holds %s for that key", ch.sig, ch.impl, ch.truth),
@@ -123,11 +132,23 @@ func (c *ctx) judge(ch *check, model string) {
 
 func (c *ctx) runBatches(in <-chan batch, wg *sync.WaitGroup) {
 	defer wg.Done()
-	drv, err := lib.StartDriver(c.f.Driver)
-	if err != nil {
-		c.res.Note("driver: %v", err)
-		for range in {
+	var drv *lib.Driver
+	var err error
+	for try := 0; try < 3 && drv == nil; try++ {
+		if drv, err = lib.StartDriver(c.f.Driver); err != nil {
+			drv = nil
 		}
+	}
+	lost := 0
+	discard := func(why string) {
+		// keep the producers from blocking, but never silently: every batch that is not judged is counted
+		for b := range in {
+			lost += len(b.checks)
+		}
+		c.res.Fatalf("%s; %d queued checks of this worker were not judged", why, lost)
+	}
+	if drv == nil {
+		discard(fmt.Sprintf("the Lean driver does not start: %v", err))
 		return
 	}
 	defer drv.Close()
@@ -137,11 +158,12 @@ func (c *ctx) runBatches(in <-chan batch, wg *sync.WaitGroup) {
 			lines[i] = b.checks[i].line
 		}
 		outs, err := drv.AskAll(lines)
-		if err != nil {
-			c.res.Note("driver: %v", err)
-			c.res.Mismatch(lib.Mismatch{Sig: "driver-died", Input: err.Error()})
-			for range in {
+		if err != nil || len(outs) != len(lines) {
+			lost = len(b.checks) - len(outs)
+			for i := range outs {
+				c.judge(&b.checks[i], outs[i])
 			}
+			discard(fmt.Sprintf("the Lean driver died or answered short (%d of %d answers): %v", len(outs), len(lines), err))
 			return
 		}
 		for i := range b.checks {
@@ -156,13 +178,14 @@ func main() {
 		"corruption of it); non-trivial = distinct case on a non-empty trie")
 	c := &ctx{f: f, res: res}
 	if f.Driver == "" {
-		res.Note("no driver")
+		res.Fatalf("no --driver given")
 		lib.Finish(f, res)
 	}
 	c.cfg2, c.cfgL = probeCfg(res)
 	res.SetExtra("verifier_variant", map[string]any{
 		"trie2_trusts_cached_hash": c.cfg2[0] == '1', "trie2_value_node_ends_walk_early": c.cfg2[1] == '1',
-		"trie2_zero_root_means_absent": c.cfg2[2] == '1', "legacy_zero_root_means_absent": c.cfgL[2] == '1'})
+		"trie2_zero_root_means_absent": c.cfg2[2] == '1', "legacy_zero_root_means_absent": c.cfgL[2] == '1',
+		"trie2_walks_the_collapsed_copy": c.cfg2[3] == '1'})
 
 	if f.Replay != "" {
 		c.replay(f.Replay)
@@ -172,8 +195,7 @@ func main() {
 	// watchdog: a harness that does not finish is reported, never silently green
 	go func() {
 		time.Sleep(time.Duration(f.Scale(480, 2700)) * time.Second)
-		res.Note("watchdog: the harness did not finish in time")
-		res.Mismatch(lib.Mismatch{Sig: "harness-watchdog-timeout", Input: "the harness did not finish within its own time limit"})
+		res.Fatalf("watchdog: the harness did not finish within its own time limit")
 		lib.Finish(f, res)
 	}()
 	r := lib.NewRNG(f.Seed)
@@ -188,7 +210,7 @@ func main() {
 		go c.runBatches(ch, &wg)
 	}
 	var sections sync.WaitGroup
-	sections.Add(5)
+	sections.Add(6)
 	t0 := time.Now()
 	timing := map[string]float64{}
 	var tmu sync.Mutex
@@ -203,6 +225,7 @@ func main() {
 	go timed("rpc_section_done_s", func() { c.rpcSection(r.Fork(2), ch) })
 	go timed("range_section_done_s", func() { c.rangeSection(r.Fork(3), ch) })
 	go timed("range_small_section_done_s", func() { c.rangeSmallSection(r.Fork(5), ch, c.probeRangeCfg()) })
+	go timed("special_section_done_s", func() { c.specialSection() })
 	go timed("weird_section_done_s", func() { c.weirdSection(r.Fork(4), ch) })
 	sections.Wait()
 	close(ch)
@@ -215,7 +238,7 @@ func main() {
 func (c *ctx) replay(path string) {
 	b, err := os.ReadFile(path)
 	if err != nil {
-		c.res.Note("replay: %v", err)
+		c.res.Fatalf("replay: %v", err)
 		return
 	}
 	var wrap struct {
@@ -250,7 +273,7 @@ func (c *ctx) replay(path string) {
 	case probe.First != "" && probe.Kind != "":
 		var cl RangeClaim
 		if err := json.Unmarshal(raw, &cl); err != nil {
-			c.res.Note("replay: %v", err)
+			c.res.Fatalf("replay: %v", err)
 			return
 		}
 		var pending batch
@@ -268,12 +291,12 @@ func (c *ctx) replay(path string) {
 	}
 	var vr verifyReplay
 	if err := json.Unmarshal(raw, &vr); err != nil {
-		c.res.Note("replay: %v", err)
+		c.res.Fatalf("replay: %v", err)
 		return
 	}
 	drv, err := lib.StartDriver(c.f.Driver)
 	if err != nil {
-		c.res.Note("driver: %v", err)
+		c.res.Fatalf("driver: %v", err)
 		return
 	}
 	defer drv.Close()
@@ -286,11 +309,15 @@ func (c *ctx) replay(path string) {
 		replay: func() any { return vr },
 	}
 	if len(vr.Key) == 251 {
-		chk.impl = realVerify(vr.Verifier, hashFnOf(vr.Hash), &root, vr.Key, vr.Proof)
+		kf := bitsToFelt(vr.Key)
+		if vr.KeyPlus {
+			kf.Add(&kf, &twoPow251)
+		}
+		chk.impl = realVerifyFelt(vr.Verifier, hashFnOf(vr.Hash), &root, &kf, vr.Proof, []time.Duration{verifyDeadline, 2 * verifyDeadline})
 	}
 	model, err := drv.Ask(chk.line)
 	if err != nil {
-		c.res.Note("driver: %v", err)
+		c.res.Fatalf("driver: %v", err)
 		return
 	}
 	c.res.Note("replay: real=%q model=%q truth=%s", chk.impl, model, vr.Truth)
@@ -307,14 +334,14 @@ func probeCfg(res *lib.Result) (cfg2, cfgL string) {
 		{K: "1" + strings.Repeat("0", 250), V: "5"}}}
 	bt, err := buildTrie(spec)
 	if err != nil {
-		res.Note("probe: %v", err)
-		return "110", "000"
+		res.Fatalf("probe: %v", err)
+		return "1100", "0000"
 	}
 	key := spec.KVs[0].K
 	p, err := bt.prove(key)
 	if err != nil || len(p) < 3 {
-		res.Note("probe: prove: %v (%d nodes)", err, len(p))
-		return "110", "000"
+		res.Fatalf("probe: prove: %v (%d nodes)", err, len(p))
+		return "1100", "0000"
 	}
 	hf := hashFnOf("ped")
 	// (1) change the value in the last node, keep its cache
@@ -357,7 +384,34 @@ func probeCfg(res *lib.Result) (cfg2, cfgL string) {
 	// (3) zero root, empty node set
 	z2 := realVerify("trie2", hf, &felt.Zero, key, nil) == "ok 0"
 	zL := realVerify("legacy", hf, &felt.Zero, key, nil) == "ok 0"
-	return b(trust) + b(early) + b(z2), "00" + b(zL)
+	// (4) a hash child given as the embedded node it stands for (no cached hash): is the walk done on the
+	// collapsed copy that was hashed, or on the node as given (then the root is re-entered too deep)
+	collapsed := true
+	spec4 := &TrieSpec{Impl: "trie2", Hash: "ped", Height: 251, KVs: []KV{
+		{K: strings.Repeat("0", 251), V: "2"}, {K: "01" + strings.Repeat("0", 249), V: "3"},
+		{K: "1" + strings.Repeat("0", 250), V: "5"}}}
+	if bt4, err := buildTrie(spec4); err != nil {
+		res.Fatalf("probe: %v", err)
+	} else if p4, err := bt4.prove(spec4.KVs[1].K); err != nil || len(p4) < 2 || p4[0].Kind != "B" {
+		res.Fatalf("probe: prove: %v (%d nodes)", err, len(p4))
+	} else {
+		q := p4.clone()
+		for i := range q {
+			q[i].Cache = ""
+		}
+		emb := q[1]
+		root := q[0]
+		if root.L.F != emb.Key {
+			res.Fatalf("probe: the second proof node is not the root's left child")
+		}
+		root.L = Child{T: "p", F: emb.Key, Emb: &emb}
+		q[0] = root
+		ans := realVerifyFelt("trie2", hf, &bt4.root, ptrFelt(bitsToFelt(spec4.KVs[1].K)), q, []time.Duration{20 * time.Second, 60 * time.Second})
+		collapsed = ans == "ok 3"
+	}
+	return b(trust) + b(early) + b(z2) + b(collapsed), "00" + b(zL) + "0"
 }
+
+func ptrFelt(f felt.Felt) *felt.Felt { return &f }
 
 var _ = felt.Zero
